@@ -132,7 +132,7 @@ def o_django(rec: Recorder, case, soft=False):
     if h.verify(secret, dj) is not True:
         rec.fail(f"C02/django-made-rejected/{name}", f"{name}: hash made by Django's own hasher does not verify", "django_direction", case, False, True, soft=soft)
     f = table.T[name]
-    if f.key(other_secret(secret), ns, {}) != f.key(secret, ns, {}) and h.verify(other_secret(secret), dj) is not False:
+    if len(secret) <= 4090 and f.key(other_secret(secret), ns, {}) != f.key(secret, ns, {}) and h.verify(other_secret(secret), dj) is not False:
         rec.fail(f"C02/django-made-overaccept/{name}", f"{name}: Django-made hash verifies a different password", "django_direction", case, True, False, soft=soft)
     mine = h.using(**settings).hash(secret)
     v = R3.django_verify(name, secret, mine)
